@@ -716,7 +716,7 @@ func c08BigSub(kind, size int) gtab.Subtable {
 
 // c08Scaled builds the k-th subtable kind with n entries (for the sweep across the 64 KiB limit of the
 // 16-bit offsets inside one subtable).
-var c08ScaledKinds = []string{"GSUB1.2", "GSUB2.1", "GSUB3.1", "GSUB4.1 (two ligature sets)", "GSUB4.1 (one ligature per set)", "context format 1", "chained context format 1", "GPOS1.2", "GPOS2.1", "GPOS2.2", "GPOS4.1", "context format 2", "chained context format 2", "context format 3", "chained context format 3", "GSUB8.1", "GPOS3.1", "GPOS6.1", "context format 2 (large class table)", "chained context format 2 (large class tables)", "GPOS2.2 (large class tables)", "GSUB1.1", "GPOS1.1", "GPOS6.1 (n x 2 anchors, all but the last one empty)", "GPOS4.1 (n x 2 anchors, all but the last one empty)"}
+var c08ScaledKinds = []string{"GSUB1.2", "GSUB2.1", "GSUB3.1", "GSUB4.1 (two ligature sets)", "GSUB4.1 (one ligature per set)", "context format 1", "chained context format 1", "GPOS1.2", "GPOS2.1", "GPOS2.2", "GPOS4.1", "context format 2", "chained context format 2", "context format 3", "chained context format 3", "GSUB8.1", "GPOS3.1", "GPOS6.1", "context format 2 (large class table)", "chained context format 2 (large class tables)", "GPOS2.2 (large class tables)", "GSUB1.1", "GPOS1.1", "GPOS6.1 (n x 2 anchors, all but the last one empty)", "GPOS4.1 (n x 2 anchors, all but the last one empty)", "GPOS6.1 (n mark1 glyphs)", "GPOS4.1 (n mark glyphs)"}
 
 func c08Scaled(k, n int) (gtab.Subtable, uint16, bool) {
 	g := func(i int) glyph.ID { return glyph.ID(1 + i) }
@@ -919,6 +919,23 @@ func c08Scaled(k, n int) (gtab.Subtable, uint16, bool) {
 		}
 		st.BaseArray[n-1][1] = anchor.Table{X: 5, Y: -7}
 		return st, 4, true
+	case 25:
+		// the mark array grows: n mark1 glyphs of two classes, one mark2 glyph
+		st := &gtab.Gpos6_1{Mark1Cov: coverage.Table{}, Mark2Cov: coverage.Table{g(0): 0},
+			Mark2Array: [][]anchor.Table{{{X: 1, Y: 700}, {X: 5, Y: -3}}}}
+		for i := 0; i < n; i++ {
+			st.Mark1Cov[g(1+i)] = i
+			st.Mark1Array = append(st.Mark1Array, markarray.Record{Class: uint16(i % 2), Table: anchor.Table{X: funit.Int16(i%300 + 1), Y: funit.Int16(-1 - i%200)}})
+		}
+		return st, 6, true
+	case 26:
+		st := &gtab.Gpos4_1{MarkCov: coverage.Table{}, BaseCov: coverage.Table{g(0): 0},
+			BaseArray: [][]anchor.Table{{{X: 1, Y: 700}, {X: 5, Y: -3}}}}
+		for i := 0; i < n; i++ {
+			st.MarkCov[g(1+i)] = i
+			st.MarkArray = append(st.MarkArray, markarray.Record{Class: uint16(i % 2), Table: anchor.Table{X: funit.Int16(i%300 + 1), Y: funit.Int16(-1 - i%200)}})
+		}
+		return st, 4, true
 	default:
 		// n base glyphs x 2 mark classes
 		st := &gtab.Gpos4_1{MarkCov: coverage.Table{g(0): 0, g(1): 1}, BaseCov: coverage.Table{},
@@ -993,7 +1010,7 @@ func c08SubtableLimit(r *run.Run) {
 		firstBad[k] = lo
 	}
 	r.Explore(explore.Config{Name: "C08.subtable-limit", Deadline: r.PartDeadline(0.7)},
-		fmt.Sprintf("%d subtable kinds (GSUB 1.2, 2.1, 3.1, 4.1 in two shapes, 8.1, all six context forms, GPOS 1.2, 2.1, 2.2, 3.1, 4.1, 6.1, the last two also with anchor arrays that are empty but for their last cell) with every entry count in a window of +-%d around (a) the count at which the encoded subtable crosses 64 KiB and (b) the smallest count that does not round-trip (found by bisection; an internal 16-bit offset, e.g. that of a trailing coverage table, overflows before the total size does): the encoder refuses loudly, or the table comes back intact", len(c08ScaledKinds), window),
+		fmt.Sprintf("%d subtable kinds (GSUB 1.2, 2.1, 3.1, 4.1 in two shapes, 8.1, all six context forms, GPOS 1.2, 2.1, 2.2, 3.1, 4.1, 6.1, the last two also with anchor arrays that are empty but for their last cell and with a growing mark array) with every entry count in a window of +-%d around (a) the count at which the encoded subtable crosses 64 KiB and (b) the smallest count that does not round-trip (found by bisection; an internal 16-bit offset, e.g. that of a trailing coverage table, overflows before the total size does): the encoder refuses loudly, or the table comes back intact", len(c08ScaledKinds), window),
 		func(c *explore.Ctx) {
 			k := c.Choose(len(c08ScaledKinds), "subtable kind")
 			centre := cross[k]
